@@ -42,10 +42,19 @@ structure DSt where
   dicts : Array (Nat × Option (Res (List (Nat × Nat)))) := #[]      -- `env D`: none = a list, some r = dict(data)
   ofd : Array (List (Nat × Nat) × Nat) := #[]                       -- `env O`: items -> handle of that dict
   prims : Array (Nat × Prim) := #[]                                 -- `env P`
-  cfg : Cfg := ⟨[]⟩
-  stats : Stats := Stats.zero
+  world : World := []                                               -- the Chaperone instances, in creation order
+  cur : Nat := 0                                                    -- the one the next operation addresses
   table : Array (Key × Val) := #[]
   texts : Array Text := #[]       -- `env T <hex>` defines text number `texts.size`; later tokens `@k` refer to it
+
+/-- the addressed instance (a default-configured one if none was created yet) -/
+def DSt.inst (st : DSt) : Inst := (st.world[st.cur]?).getD ⟨Cfg.new [], Stats.zero⟩
+def DSt.cfg (st : DSt) : Cfg := st.inst.cfg
+def DSt.stats (st : DSt) : Stats := st.inst.stats
+/-- store the counters of the addressed instance (creating the implicit default instance if needed) -/
+def DSt.withStats (st : DSt) (s : Stats) : DSt :=
+  if st.world.isEmpty then { st with world := [⟨Cfg.new [], s⟩], cur := 0 }
+  else { st with world := st.world.setStats st.cur s }
 
 def lookup (tb : Array (Key × Val)) (k : Key) : Option (Nat × Val) :=
   match tb.findIdx? (fun e => e.1 == k) with
@@ -120,6 +129,14 @@ def stratOf (c : Char) : Option Strategy :=
 /-- "none" and "-" are Python's `None` and `[]`; otherwise one letter per strategy -/
 def stratsOf (s : String) : List Strategy :=
   if s = "none" || s = "-" then [] else s.toList.filterMap stratOf
+
+def tuneOf (s : String) : Option Tune :=
+  match s.splitOn ":" with
+  | ["reverse"] => some .reverse
+  | ["clear"] => some .clear
+  | ["remove", x] => (x.toList.head?.bind stratOf).map .remove
+  | ["append", x] => (x.toList.head?.bind stratOf).map .append
+  | _ => none
 
 def showStrat : Strategy → String
   | .strict => "s" | .extraction => "e" | .lenient => "l" | .repair => "r"
@@ -203,13 +220,21 @@ def step (st : DSt) (toks : List String) : DSt × String :=
       | some _ => (st, "ok")                       -- first recording wins (the harness checks determinism)
       | none => ({ st with table := st.table.push e }, "ok")
     | none => (st, "bad-env")
-  | ["new", c] => ({ st with cfg := ⟨stratsOf c⟩, stats := Stats.zero }, "ok")
+  | ["new", c] => ({ st with world := st.world.create (stratsOf c), cur := st.world.length }, "ok")
+  | ["use", i] => if natD i < st.world.length then ({ st with cur := natD i }, "ok") else (st, "no-such-instance")
+  | ["tune", t] =>
+    match tuneOf t with
+    | some tu =>
+      let st1 := if st.world.isEmpty then { st with world := [⟨Cfg.new [], Stats.zero⟩], cur := 0 } else st
+      let st2 := { st1 with world := st1.world.tune st1.cur tu }
+      (st2, showList (st2.cfg.strategies.map showStrat))
+    | none => (st, "bad-op")
   | ["fold", raw, call] =>
     let rawT := decodeCps raw
     match fold (mkEnv st st.table) st.cfg st.stats rawT (stratsOf call) with
     | ⟨tr, .ok (stats', r)⟩ =>
       let sid := match r.struct with | some s => toString s | none => "none"
-      ({ st with stats := stats' },
+      (st.withStats stats',
         joinSp [showBool r.valid, sid, showBool r.err.isSome, showBool (r.raw == rawT), showCalls st st.table tr]
         ++ " ## " ++ joinSp ((if r.valid then "hit" else "fail") :: convTags tr))
     | ⟨tr, .raise _⟩ => (st, joinSp ["raise", showCalls st st.table tr])
@@ -220,7 +245,7 @@ def step (st : DSt) (toks : List String) : DSt × String :=
       let sid := match r.struct with | some s => toString s | none => "none"
       let tags := (if r.valid then "hitx:" ++ showOptStrat r.strategyUsed else "failx") ::
         (r.attempts.filter (fun a => !a.success)).map (fun a => errTag a.err) ++ convTags tr
-      ({ st with stats := stats' },
+      (st.withStats stats',
         joinSp [showBool r.valid, sid, showBool r.err.isSome, showBool (r.raw == rawT), showOptStrat r.strategyUsed,
           showRat r.confidence, showList (r.coercions.map showNote), showList (r.attempts.map showAtt),
           showCalls st st.table tr]
@@ -239,12 +264,12 @@ def step (st : DSt) (toks : List String) : DSt × String :=
           let sid := match r.struct with | some s => toString s | none => "none"
           joinSp [showBool r.valid, sid, showOptStrat r.strategyUsed, showRat r.confidence,
             showList (r.coercions.map showNote)]
-      ({ st with stats := stats' },
+      (st.withStats stats',
         joinSp [oc, showRat h.finalConfidence, showBool h.tagged, showList atts, "folded:", fo, showCalls st st.table tr]
         ++ " ## " ++ joinSp (("heal:" ++ oc) :: convTags tr))
     | ⟨tr, .raise _⟩ => (st, joinSp ["raise", showCalls st st.table tr])
   | ["stats"] => (st, showStats st.stats)
-  | ["resetstats"] => ({ st with stats := Stats.zero }, "ok")
+  | ["resetstats"] => (st.withStats Stats.zero, "ok")
   | _ => (st, "bad-op")
 
 def main : IO Unit := runDriver ({} : DSt) step
